@@ -201,7 +201,7 @@ static Iso run_isolated(World &w, const std::string &prop, const Knobs &k, const
     close(fd[0]);
     int st = 0; waitpid(pid, &st, 0);
     out.choices.assign(g_shm->r[MAXW].choices, g_shm->r[MAXW].choices + g_shm->r[MAXW].nchoices);
-    if (hang) { out.cls = "HANG"; out.detail = "run did not terminate within 12 s wall (a normal run takes milliseconds)"; out.hash = g_shm->r[MAXW].trace_hash; out.crashed = true; return out; }
+    if (hang) { out.cls = "HANG"; out.detail = "run did not terminate within 12 s wall (a normal run takes milliseconds)"; if (g_shm->r[MAXW].note[0]) out.detail = std::string("[while: ") + g_shm->r[MAXW].note + "] " + out.detail; out.hash = g_shm->r[MAXW].trace_hash; out.crashed = true; return out; }
     if (WIFEXITED(st) && WEXITSTATUS(st) == 0) {
         std::vector<std::string> f; size_t a = 0;
         for (size_t i = 0; i < buf.size(); i++) if (buf[i] == '\x1f') { f.push_back(buf.substr(a, i - a)); a = i + 1; }
